@@ -4,7 +4,28 @@ import json, os
 HERE = os.path.dirname(os.path.dirname(os.path.abspath(__file__)))
 ALL = ["C%02d" % i for i in range(1, 20)]
 
+KERNEL_NOTE = ("Trusted base: numpy/scipy linear algebra (float64 + own longdouble Cholesky), astropy unit conversion, twobody's "
+               "Kepler solver for the K column (the same C function the kernel calls, invoked independently), Hypothesis. The compiled "
+               "kernel is rebuilt from the working tree's generated fast_likelihood.c (no Cython in this sandbox: .pyx-only edits "
+               "cannot take effect, stated in the evidence). Tolerance is the round-off model of DESIGN 4.2; absence of violations is "
+               "'held on everything explored'.")
+
 CHECKS = {
+ "C01": dict(
+  category="exploration",
+  text="Generated-input search (Hypothesis): data sets x prior configurations x nonlinear rows x execution path, each value of "
+       "TheJoker.marginal_ln_likelihood compared with an independent closed form ln N(y|M mu, C+s^2 I+M Lambda M^T). Recorded defects "
+       "(F1 jitter ignored, F2 custom-K slot, F4 P0 unit, F5 survey labels) are recognised by exact adjusted closed forms; every other "
+       "difference is a violation. Exploration is the right level: the domain is an unbounded product space with a cheap exact oracle.",
+  design_ref="DESIGN.md 4.1, 4.2, 5/C01, 6", note=KERNEL_NOTE,
+  technique="property-based testing (Hypothesis) against a closed-form reference model"),
+ "C08": dict(
+  category="exploration",
+  text="Generated multi-survey inputs (1-4 surveys, all time layouts, list/tuple/dict, units) with tagged observations: merged multiset, "
+       "per-row label recovery, offset-indicator columns, plus the C01 closed-form comparison on multi-survey problems with a guard "
+       "that labels matter. The label defect F5 (ids not re-sorted) is recognised exactly and reported as a known finding.",
+  design_ref="DESIGN.md 5/C08, 6", note=KERNEL_NOTE,
+  technique="property-based testing with tagged observations (provenance oracle) + closed-form differential"),
  "C16": dict(
   category="exploration",
   text="Exhaustive enumeration of batch_tasks on a bounded box (n_tasks<=160 x n_batches<=200 x 4 start indices x "
